@@ -84,6 +84,8 @@ type Options struct {
 	DataStore   goheader.Store[*types.Data]
 	// CustomPayload: use a non-default signature payload provider (header bytes + a suffix)
 	CustomPayload bool
+	// WrapSigner (optional): wraps the signer the node is given, e.g. to run a callback at a signer call
+	WrapSigner func(signer.Signer) signer.Signer
 	// MakeSeq builds the sequencing layer on the node's datastore (default: the scripted double)
 	MakeSeq func(ds *hx.LogDS) (coresequencer.Sequencer, error)
 }
@@ -115,6 +117,9 @@ func New(o Options) (*Env, error) {
 			return nil, err
 		}
 		sg = s
+		if o.WrapSigner != nil {
+			sg = o.WrapSigner(sg)
+		}
 	}
 	e.Signer = sg
 	e.DS = hx.NewLogDS(o.Image)
